@@ -250,6 +250,10 @@ class ManageSieveConnection:
                     responses.append(ChallengeResponse(chal.data, resp_dec))
             except AuthenticationError as exc:
                 return Response(Condition.NO, text=str(exc))
+            except UnicodeError:
+                # the mechanism decodes the client's response as UTF-8
+                return Response(Condition.NO,
+                                text='Invalid authentication response.')
             else:
                 break
         if final is None:
